@@ -448,7 +448,9 @@ package keeper
 //@ func (Keeper).CalculateBatchAllocation
 //@ trusted interface contract: the body (sort.Search over a closure, several map loops) is not yet verified against it
 //@ requires auctionFieldsWF(auction, auction.Id) && auction.Kind == KindBatch && InvBidsWF() && 0 <= BidSeq[auction.Id] && dense1(domOf(Bid, auction.Id), BidSeq[auction.Id])
-//@ modifies Bid, MatchedBidsLen, SetT
+//@ modifies Bid, MatchedBidsLen, SetT, LastMatchTotal, LastMatchPrice
+//@ sets LastMatchTotal = result0.TotalMatchedAmount
+//@ sets LastMatchPrice = result0.MatchedPrice
 //@ ensures [C13] records-the-matched-length: result1 == nil ==> result0.MatchedLen >= 0 && MatchedBidsLen[auction.Id].present && MatchedBidsLen[auction.Id] == result0.MatchedLen
 //@ ensures [C13,C19] other-matched-lengths-untouched: forall(x, uint64, x != auction.Id ==> MatchedBidsLen[x] == old(MatchedBidsLen[x]))
 //@ ensures [C11,C19,C16] only-matched-flags-of-this-auction-change: forall(a, uint64, forall(i, uint64, Bid[a][i].present == old(Bid[a][i]).present && ite(a == auction.Id, sameExcept(Bid[a][i], old(Bid[a][i]), IsMatched), Bid[a][i] == old(Bid[a][i]))))
@@ -474,13 +476,15 @@ package keeper
 //@ requires InvBidsWF() && 0 <= BidSeq[auction.Id] && dense1(domOf(Bid, auction.Id), BidSeq[auction.Id])
 //@ requires forall(t, Time, !VestingQueue[auction.Id][t].present)
 //@ requires 0 <= MatchedBidsLen[auction.Id]
-//@ modifies Auction, Bid, MatchedBidsLen, VestingQueue, Bal, HookN, HookT, SetT, XferN, XferT, *auction
+//@ modifies Auction, Bid, MatchedBidsLen, VestingQueue, Bal, HookN, HookT, SetT, XferN, XferT, LastMatchTotal, LastMatchPrice, *auction
 //@ ensures [C13] settles-when-no-round-is-left: result == nil && old(len(auction.EndTimes)) == auction.MaxExtendedRound + 1 ==> auction.Status != AuctionStatusStarted && len(auction.EndTimes) == old(len(auction.EndTimes))
 //@ ensures [C13] extends-when-there-was-nothing-to-compare-with: result == nil && old(len(auction.EndTimes)) != auction.MaxExtendedRound + 1 && old(MatchedBidsLen[auction.Id]) == 0 ==> len(auction.EndTimes) == old(len(auction.EndTimes)) + 1 && auction.Status == AuctionStatusStarted
 //@ ensures [C13] anti-sniping-rule-as-computed: result == nil && old(len(auction.EndTimes)) != auction.MaxExtendedRound + 1 && old(MatchedBidsLen[auction.Id]) > 0 ==> (len(auction.EndTimes) == old(len(auction.EndTimes)) + 1) == (S - decQuo(MatchedBidsLen[auction.Id] * S, old(MatchedBidsLen[auction.Id]) * S) >= auction.ExtendedRoundRate)
 //@ ensures [C13] an-extension-appends-one-period-and-moves-no-coins: result == nil && len(auction.EndTimes) != old(len(auction.EndTimes)) ==> len(auction.EndTimes) == old(len(auction.EndTimes)) + 1 && auction.EndTimes[len(auction.EndTimes)-1] == addDays(old(auction.EndTimes[len(auction.EndTimes)-1]), Params.ExtendedPeriod) && auction.Status == AuctionStatusStarted && Bal == old(Bal) && VestingQueue == old(VestingQueue)
 //@ ensures [C13,C08] otherwise-it-settles: result == nil && len(auction.EndTimes) == old(len(auction.EndTimes)) ==> auction.Status == ite(len(auction.VestingSchedules) == 0, AuctionStatusFinished, AuctionStatusVesting)
 //@ ensures [C01,C02] settlement-drains-the-escrows: result == nil && len(auction.EndTimes) == old(len(auction.EndTimes)) ==> bal(sellEsc(auction.Id), auction.SellingCoin.Denom) == 0 && bal(payEsc(auction.Id), auction.PayingCoinDenom) == 0
+//@ ensures [C16] an-extension-publishes-no-price: result == nil && len(auction.EndTimes) != old(len(auction.EndTimes)) ==> auction.MatchedPrice == old(auction.MatchedPrice)
+//@ ensures [C16] a-settlement-publishes-the-clearing-price-or-nothing: result == nil && len(auction.EndTimes) == old(len(auction.EndTimes)) ==> auction.MatchedPrice == ite(LastMatchTotal > 0, LastMatchPrice, old(auction.MatchedPrice))
 //@ ensures [C13] matched-length-recorded-for-the-next-comparison: result == nil ==> MatchedBidsLen[auction.Id].present && MatchedBidsLen[auction.Id] >= 0
 //@ ensures [C19] other-auctions-untouched: forall(x, uint64, x != auction.Id ==> Auction[x] == old(Auction[x]) && MatchedBidsLen[x] == old(MatchedBidsLen[x]))
 //@ ensures [C19] other-auctions-instalments-untouched: forall(x, uint64, forall(t, Time, x != auction.Id ==> VestingQueue[x][t] == old(VestingQueue[x][t])))
@@ -502,7 +506,7 @@ package keeper
 //@ requires auctionFieldsWF(auction, auction.Id) && auction.Status == AuctionStatusStarted && auction.Id < 18446744073709551616 && Params.present
 //@ requires InvBidsWF() && 0 <= BidSeq[auction.Id] && dense1(domOf(Bid, auction.Id), BidSeq[auction.Id])
 //@ requires forall(t, Time, !VestingQueue[auction.Id][t].present) && 0 <= MatchedBidsLen[auction.Id]
-//@ modifies Auction, Bid, MatchedBidsLen, VestingQueue, Bal, HookN, HookT, SetT, XferN, XferT, *auction
+//@ modifies Auction, Bid, MatchedBidsLen, VestingQueue, Bal, HookN, HookT, SetT, XferN, XferT, LastMatchTotal, LastMatchPrice, *auction
 //@ ensures [C08] untouched-before-the-end-time: old(auction.EndTimes[len(auction.EndTimes)-1]) > BlockTime ==> result == nil && Auction == old(Auction) && Bid == old(Bid) && Bal == old(Bal) && VestingQueue == old(VestingQueue) && MatchedBidsLen == old(MatchedBidsLen) && auction.Status == AuctionStatusStarted
 //@ ensures [C08,C13] settles-or-extends-at-the-end-time: result == nil && old(auction.EndTimes[len(auction.EndTimes)-1]) <= BlockTime ==> (auction.Status == ite(len(auction.VestingSchedules) == 0, AuctionStatusFinished, AuctionStatusVesting) && len(auction.EndTimes) == old(len(auction.EndTimes))) || (auction.Kind == KindBatch && auction.Status == AuctionStatusStarted && len(auction.EndTimes) == old(len(auction.EndTimes)) + 1)
 //@ ensures [C19] other-auctions-untouched: forall(x, uint64, x != auction.Id ==> Auction[x] == old(Auction[x]) && MatchedBidsLen[x] == old(MatchedBidsLen[x]))
@@ -534,7 +538,7 @@ package keeper
 // finished and cancelled ones are left alone; the first failure is returned.
 //@ func (Keeper).BeginBlocker
 //@ requires Inv() && InvVQ() && InvMatched()
-//@ modifies Auction, Bid, MatchedBidsLen, VestingQueue, Bal, HookN, HookT, SetT, XferN, XferT
+//@ modifies Auction, Bid, MatchedBidsLen, VestingQueue, Bal, HookN, HookT, SetT, XferN, XferT, LastMatchTotal, LastMatchPrice
 //@ ensures [C08] status-moves-only-forward: result == nil ==> forall(x, uint64, old(Auction[x]).present ==> Auction[x].present && forward(old(Auction[x]).Status, Auction[x].Status))
 //@ ensures [C08,C12] no-auction-appears-or-disappears: result == nil ==> domOf(Auction) == old(domOf(Auction))
 //@ ensures [C08] waiting-auctions-open-exactly-at-their-start-time: result == nil ==> let(dom, old(domOf(Auction)), forall(j, int, 0 <= j && j < ilistN(dom) ==> let(x, ilistKey(dom, j), old(Auction[x]).Status == AuctionStatusStandBy ==> Auction[x].Status == ite(old(Auction[x]).StartTime <= BlockTime, AuctionStatusStarted, AuctionStatusStandBy))))
@@ -549,3 +553,36 @@ package keeper
 //@ loop 0 invariant forall(j, int, 0 <= j && j < idx ==> let(x, ilistKey(DOM, j), let(o, old(Auction[x]), let(n, Auction[x], (o.Status == AuctionStatusStandBy ==> n.Status == ite(o.StartTime <= BlockTime, AuctionStatusStarted, AuctionStatusStandBy)) && (o.Status == AuctionStatusStarted && o.EndTimes[len(o.EndTimes)-1] > BlockTime ==> n == o) && (o.Status == AuctionStatusStarted && o.EndTimes[len(o.EndTimes)-1] <= BlockTime ==> n.Status == ite(len(n.VestingSchedules) == 0, AuctionStatusFinished, AuctionStatusVesting) || (n.Kind == KindBatch && n.Status == AuctionStatusStarted && len(n.EndTimes) == len(o.EndTimes) + 1)) && ((o.Status == AuctionStatusFinished || o.Status == AuctionStatusCancelled) ==> n == o)))))
 //@ loop 0 invariant InvBidsWF() && forall(a, uint64, 0 <= BidSeq[a] && dense1(domOf(Bid, a), BidSeq[a])) && InvMatched() && BidSeq == old(BidSeq)
 //@ loop 0 invariant forall(j, int, idx <= j && j < len(auctions) ==> let(x, ilistKey(DOM, j), forall(t, Time, VestingQueue[x][t] == old(VestingQueue[x][t]))))
+
+// Query handlers (C16): queries by id return exactly the stored object or not-found; listings return stored objects
+// that satisfy the request (one clause per request field).
+//@ func (queryServer).GetAuction
+//@ requires InvAuctions()
+//@ ensures [C16] found-iff-stored: req != nil ==> (result1 == nil) == Auction[req.AuctionId].present
+//@ ensures [C16] returns-the-stored-auction: result1 == nil ==> result0.Auction == Auction[req.AuctionId]
+
+//@ func (queryServer).GetBid
+//@ ensures [C16] found-iff-stored: req != nil ==> (result1 == nil) == Bid[req.AuctionId][req.BidId].present
+//@ ensures [C16] returns-the-stored-bid: result1 == nil ==> result0.Bid == Bid[req.AuctionId][req.BidId]
+
+//@ func (queryServer).GetAllowedBidder
+//@ ensures [C16] found-iff-stored: req != nil && validAddr(req.Bidder) ==> (result1 == nil) == AllowedBidder[req.AuctionId][addrOf(req.Bidder)].present
+//@ ensures [C16] returns-the-stored-entry: result1 == nil ==> result0.AllowedBidder == AllowedBidder[req.AuctionId][addrOf(req.Bidder)]
+
+//@ func (queryServer).ListAuction
+//@ requires InvAuctions()
+//@ ensures [C16] lists-only-stored-auctions-matching-type-and-status: result1 == nil ==> forall(j, int, 0 <= j && j < len(result0.Auction) ==> (req.Type == "" || typeName(result0.Auction[j].Type) == req.Type) && (req.Status == "" || statusName(result0.Auction[j].Status) == req.Status) && result0.Auction[j].Kind != 0)
+
+//@ func (queryServer).ListBid
+//@ ensures [C16] lists-only-stored-bids: result1 == nil ==> forall(j, int, 0 <= j && j < len(result0.Bid) ==> exists(a, uint64, exists(i, uint64, Bid[a][i].present && result0.Bid[j] == Bid[a][i])))
+//@ ensures [C16] honours-the-auction-id-filter: result1 == nil ==> forall(j, int, 0 <= j && j < len(result0.Bid) ==> result0.Bid[j].AuctionId == req.AuctionId)
+//@ ensures [C16] honours-the-bidder-filter: result1 == nil && req.Bidder != "" ==> forall(j, int, 0 <= j && j < len(result0.Bid) ==> result0.Bid[j].Bidder == req.Bidder)
+//@ ensures [C16] honours-the-is-matched-filter: result1 == nil && req.IsMatched != "" ==> forall(j, int, 0 <= j && j < len(result0.Bid) ==> boolName(result0.Bid[j].IsMatched) == req.IsMatched)
+
+//@ func (queryServer).ListAllowedBidder
+//@ ensures [C16] lists-only-stored-entries: result1 == nil ==> forall(j, int, 0 <= j && j < len(result0.AllowedBidder) ==> exists(a, uint64, exists(ad, Addr, AllowedBidder[a][ad].present && result0.AllowedBidder[j] == AllowedBidder[a][ad])))
+//@ ensures [C16] honours-the-auction-id-filter: result1 == nil ==> forall(j, int, 0 <= j && j < len(result0.AllowedBidder) ==> result0.AllowedBidder[j].AuctionId == req.AuctionId)
+
+//@ func (queryServer).ListVestingQueue
+//@ ensures [C16] lists-only-stored-instalments: result1 == nil ==> forall(j, int, 0 <= j && j < len(result0.VestingQueue) ==> exists(a, uint64, exists(t, Time, VestingQueue[a][t].present && result0.VestingQueue[j] == VestingQueue[a][t])))
+//@ ensures [C16] honours-the-auction-id-filter: result1 == nil ==> forall(j, int, 0 <= j && j < len(result0.VestingQueue) ==> result0.VestingQueue[j].AuctionId == req.AuctionId)
